@@ -23,3 +23,4 @@ def run(ctx):
     CH.wake_discipline(ctx, "C10.R2", fo)
     CH.publish_rules(ctx, "C10.R4.publish", "C10.R4.nonempty", "C10.R4.flag")
     CH.lock_discipline(ctx, "C10.R4")
+    CH.critical_sections_panic_free(ctx, "C10.R4.nopanic")
